@@ -54,6 +54,3 @@ func probeStale() (stale bool, detail string, err error) {
 	}
 	return false, "", nil
 }
-
-// ProbeForTest is used by the command line to print the probe result.
-func ProbeForTest() { s, d, e := probeStale(); fmt.Println(s, d, e) }
